@@ -2,7 +2,7 @@
 # executor, the history-acceptance comparison against the explored model, the oracles.
 import re
 
-EXEC = ("mq", "mqs", "rv")
+EXEC = ("mq", "mqs", "rv", "su")
 MODEL_AFTER_IMPL = True
 PER_SHARD = 40
 IMPL_SHARDS = 8           # timing windows: do not oversubscribe the machine
@@ -57,7 +57,7 @@ def mqs_threads(case):
 
 
 def model_line(case, obs):
-    if case.startswith("rv "):
+    if case.startswith("rv ") or case.startswith("su "):
         return case
     if case.startswith("mqs "):
         o = parse_mqs(obs)
@@ -79,7 +79,7 @@ def model_line(case, obs):
 
 
 def agree(im, mo):
-    if im.startswith("total="):
+    if im.startswith("total=") or re.match(r"(-$|[tyri]\d*:)", im):
         return im == mo
     if im.startswith("labels="):
         return mo.startswith("LOCKSTEP-OK")
@@ -164,6 +164,8 @@ def oracle_c07(case, obs):
         return oracle_rv(case, obs)
     if case.startswith("mqs "):
         return oracle_mqs(case, obs)
+    if case.startswith("su "):
+        return oracle_su(case, obs)
     o = parse_impl(obs)
     if o is None:
         return "FAIL implementation: " + obs[:200]
@@ -186,11 +188,99 @@ def oracle_c07(case, obs):
     return "OK"
 
 
+def rand_su(rng):
+    """A script for the `su` executor: the Server-level receive calls and unblock, one after the other."""
+    ops = []
+    pending = 0
+    k = 1
+    for _ in range(3 + rng.below(7)):
+        c = rng.below(12)
+        if c < 3:
+            ops.append("u")
+            pending += 1
+        elif c < 5:
+            ops.append("q%d" % k)
+            k += 1
+            pending += 1
+        elif c < 8:
+            ops.append("t%d" % rng.choice([150, 300]))
+            pending = max(0, pending - 1)
+        elif c < 10:
+            ops.append("y")
+            pending = max(0, pending - 1)
+        elif pending > 0 or rng.chance(1, 4):
+            ops.append(rng.choice(["r", "i"]))
+            pending = max(0, pending - 1)
+    return ",".join(ops) if ops else "u,y"
+
+
+def gen_su(tier, rng):
+    fixed = ["u,t300", "u,u,t300,r,y", "u,y,t150", "q1,u,t300,t300,r", "u,t150,t150", "q1,q2,u,y,i,r,y", "u,i,t150", "t150,u,t300,y",
+             "u,u,u,t300,t300,t300,t150", "q1,t300,u,t300,q2,r"]
+    for sc in fixed:
+        yield "su %s %s" % ("u", sc), {"server_api": "fixed"}
+    yield "su t u,t300,q1,t300,u,r", {"server_api": "fixed"}
+    for i in range(40 if tier == "quick" else 600):
+        yield "su %s %s" % ("t" if i % 7 == 0 else "u", rand_su(rng)), {"server_api": "random"}
+
+
+def oracle_su(case, obs):
+    """The property read as a FIFO of requests and unblock tokens: a receive call takes the oldest entry: a request is
+    returned, a token makes the call return without a request at once; when nothing is queued try_recv returns nothing at
+    once, recv_timeout returns nothing after about its timeout (not earlier, at most twice as long), recv / the iterator
+    block (until the harness releases them with an unblock of its own)."""
+    if "failed" in obs:
+        return "FAIL set-up: " + obs[:200]
+    ops = case.split(" ")[2].split(",")
+    res = [] if obs == "-" else obs.split(" ")
+    fifo = []
+    k = 0
+    for op in ops:
+        if op == "u":
+            fifo.append("T")
+            continue
+        if op[0] == "q":
+            fifo.append("R" + op[1:])
+            continue
+        if k >= len(res):
+            return "FAIL no result reported for %s" % op
+        r = res[k].split(":")
+        k += 1
+        head = fifo.pop(0) if fifo else None
+        what = r[1]
+        if head is not None and head != "T":
+            if what != head:
+                return "FAIL %s returned %s although request %s is the oldest queued entry" % (op, what, head[1:])
+            if op[0] == "t" and r[2] != "fast":
+                return "FAIL %s took about its whole timeout although request %s was queued" % (op, head[1:])
+        elif head == "T":
+            if what not in ("N", "E"):
+                return "FAIL %s returned %s although an unblock token is the oldest queued entry" % (op, what)
+            if op[0] == "t" and r[2] != "fast":
+                return "FAIL recv_timeout(%s ms) was not released by the pending unblock (it returned after about its whole timeout)" % op[1:]
+            if op in ("r", "i") and what != "E":
+                return "FAIL %s was not released by the pending unblock (%s)" % (op, what)
+        else:
+            if op == "y" and what != "N":
+                return "FAIL try_recv returned %s from an empty queue" % what
+            if op[0] == "t" and (what != "N" or r[2] != "full"):
+                return "FAIL recv_timeout(%s ms) on an empty queue: %s after %s" % (op[1:], what, r[2])
+            if op in ("r", "i") and what != "hang":
+                return "FAIL %s returned %s from an empty queue with no unblock" % (op, what)
+        if op == "y" and len(r) > 2 and r[2] == "slow":
+            return "FAIL try_recv took more than 100 ms"
+        if op[0] == "t" and r[2] == "odd":
+            return "FAIL recv_timeout(%s ms) returned neither at once nor within [0.9 T, 2 T + 150 ms]" % op[1:]
+    return "OK"
+
+
 def oracle_c17(case, obs):
     """Each unblock releases exactly one receive call (or its token is still queued); try_recv never
     blocks; a timed receive that returns empty-handed by time does so within [T - 1 ms, 2T + slack]."""
     if case.startswith("mqs "):
         return oracle_mqs(case, obs, c17=True)
+    if case.startswith("su "):
+        return oracle_su(case, obs)
     o = parse_impl(obs)
     if o is None:
         return "FAIL implementation: " + obs[:200]
